@@ -4,6 +4,7 @@ import json, os
 V = os.path.dirname(os.path.dirname(os.path.abspath(__file__)))
 NA = {
  'C04': 'returned VLE states are fixed points of an iterative f64 solver (<=200 iterations through density iterations of transcendental code): no bounded symbolic query over the real code; kernels (phase ordering, trivial-solution predicate) are claimed under C05',
+ 'C05': 'isofugacity, balances, bubble >= dew and the success clause are statements about converged iterative solvers (flash, bubble/dew Newton loops): no bounded symbolic query over the real code. The one loop-free kernel, PhaseEquilibrium::is_trivial_solution on symbolic states, was built as a Kani harness but exceeds 24 GB in CBMC (symbolic f64 divisions in State construction); nothing is claimed',
  'C06': 'criticality objectives are private, instantiated at concrete dual types inside Newton loops with nalgebra eigen-solves; tolerance statement about a solver result',
  'C07': 'statement about the minimiser of minimize_tpd (<=100 iterations, LU solves, exp/ln on arrays) and the phase diagram of the EOS',
  'C12': 'quantifies over the basin of attraction of iterative solvers; no loop-free kernel',
@@ -36,13 +37,10 @@ chk('C02', 'proof',
     'For every shipped residual model (PR, PC-SAFT incl. association/polar/k_ij, ePC-SAFT, gc-PC-SAFT, PeTS, uv-theory WCA/BH/B3, SAFT-VR Mie, SAFT-VRQ Mie) and every functional bulk path, z3 proves A_k(T, lam V, lam N) = lam A_k(T,V,N) for each contribution k, for all real T,V,N_i,lam > 0 on the traced control path, from the expression DAG obtained by running the real generic code on a symbolic number type. Bounded: 2 components, seeded parameter sets, real-arithmetic semantics.',
     ES_NOTE, ES_TECH, 'DESIGN.md 2, 4/C02', 'E-S')
 chk('C03', 'model_checking',
-    'Partial: (a) E-K: State::new over option subsets (one harness per concrete subset, 21 quick / all 2x256 thorough; all payloads symbolic f64 incl. NaN/inf/-0): over-/under-determined sets and component-count mismatches are errors, Ok echoes T/V/N bitwise and is finite and non-negative, InvalidState only for invalid values, density iteration selected exactly where documented; '
+    'Partial: (a) E-K: State::new over option subsets (one harness per concrete subset of the 8 optional inputs, 24 quick / all 2x256 thorough; temperature symbolic (any f64) on rejected patterns, concrete power-of-two payloads on valid routes): over-/under-determined sets and component-count mismatches are errors, Ok echoes T/V/N bitwise, density iteration selected exactly where documented; State::new_nvt with each of T, V, N in turn ranging over ALL f64 bit patterns: Ok iff finite and not sign-negative, echoed bitwise; '
     '(b) E-M: on the MIR control slices of density_iteration and newton, z3 Spacer proves (unbounded in the iteration count) that Ok is never returned after the iteration budget is exhausted without a passed tolerance test, and that NotConverged is reachable. Convergence/success clauses for real models are not decided.',
     EK_NOTE + 'E-M: abstraction to integer/boolean locals, Range<i32>/Option<i32> by std contract, every call and float comparison nondeterministic; unreachability is sound for the real function, reachability is reported only after a native replay.',
     'Kani/CBMC bounded model checking (public API, symbolic f64 payloads); MIR control slice -> constrained Horn clauses -> z3 Spacer; native replay', 'DESIGN.md 3, 4/C03', 'E-K + E-M')
-chk('C05', 'model_checking',
-    'Only the non-triviality predicate: PhaseEquilibrium::is_trivial_solution over all pairs of valid 1-component states (all f64 T,V,N accepted by State::new_nvt): true implies |rho2/rho1-1| < 1e-5, bitwise copies are trivial, rho2 > 2 rho1 never is. Isofugacity, balances, bubble >= dew and the success clause are statements about converged iterations and are not decided.',
-    EK_NOTE, 'Kani/CBMC bounded model checking over symbolic f64 states', 'DESIGN.md 4/C05', 'E-K')
 chk('C08', 'proof',
     'Pairs decided by z3 for all real states on the traced path: generic containers (ResidualModel enum via the derive macros, EquationOfState wrapper) vs bare model for 12 model kinds; ePC-SAFT without ions vs PC-SAFT (with and without association); homosegmented GC parameter set vs combined record; Peng-Robinson residual pressure as the library differentiates it vs the textbook closed form. '
     'Functional-bulk vs EOS pairs (PC-SAFT x 3 FMT versions, FMT vs BMCSL, PeTS, gc-PC-SAFT, SAFT-VRQ Mie) and SAFT-VRQ Mie(FH0) vs SAFT-VR Mie are beyond the prover (scope/es_scope.json: outside_reach): for those only a natively reproduced deviation is reported, no claim is made. Closed-form vs iterative association: outside (iterative side).',
@@ -78,7 +76,7 @@ def main():
         'engines': [
             {'name': 'E-S', 'path': '/verif/symtrace + /verif/lib/sweep.py', 'serves_properties': ['C01', 'C02', 'C08', 'C09', 'C10', 'C13'],
              'kind_free_text': 'symbolic trace of the real generic model code (Sym: DualNum<f64>) -> term DAG over the reals -> z3 cut-point sweeping'},
-            {'name': 'E-K', 'path': '/verif/kani', 'serves_properties': ['C01', 'C03', 'C05', 'C10', 'C11', 'C20'],
+            {'name': 'E-K', 'path': '/verif/kani', 'serves_properties': ['C01', 'C03', 'C10', 'C11'],
              'kind_free_text': 'Kani/CBMC bounded model checking of the compiled State layer'},
             {'name': 'E-M', 'path': '/verif/lib/mir2smt.py', 'serves_properties': ['C03', 'C16', 'C20'],
              'kind_free_text': 'nightly MIR dump -> SMT-LIB (real terms for f64 leaf kernels; CHC control slices for z3 Spacer)'},
